@@ -38,6 +38,37 @@ def check_edges(rep, edges, restart, label, tries, with_c20=False, max_report=3)
     rep.obligation('correspondence %s: model = implementation on %d schedules (every edge of the explored state graph)' % (label, len(edges)), n_corr == 0)
 
 
+def differ_error_pass(rep):
+    """A diff job that FAILS in a healthy worker (a differ error: RecursionError, RuntimeError, ValueError) is not a pool breakage:
+    the request ends with that error, the job is not run again, no pool is replaced or shut down, no exit is scheduled.
+    Observer only (the protocol model has no such event); real coroutines, scripted pool."""
+    import pool_harness as ph
+    n = n_bad = 0
+    for restart in (False, True):
+        for sched in ([('start', 0), ('error', 0)], [('start', 1), ('error', 1)], [('start', 2), ('error', 2)],
+                      [('start', 0), ('start', 1), ('error', 0), ('ok', 1)], [('start', 0), ('start', 1), ('start', 2), ('error', 1), ('error', 0), ('error', 2)],
+                      [('start', 0), ('error', 0), ('start', 1), ('ok', 1)], [('start', 1), ('start', 2), ('error', 1), ('break', 0), ('broken', 2)]):
+            impl = ph.run_impl(sched, restart)
+            n += 1
+            rep.count(('differ-error', repr(sched), restart), True)
+            starts = [x for k, x in sched if k == 'start']
+            errored = [x for k, x in sched if k == 'error']
+            broke = any(k == 'break' for k, _ in sched)
+            fails = []
+            for r in errored:
+                if sum(1 for s in impl['submits'] if s[0] == r) != 1:
+                    fails.append('the failed diff of request %d was submitted %d times' % (r, sum(1 for s in impl['submits'] if s[0] == r)))
+                if impl['reqs'].get(r, ('waiting',))[0] != 'done' or impl['reqs'][r][1] == 'ok':
+                    fails.append('request %d did not end with its error: %s' % (r, impl['reqs'].get(r)))
+            if not broke and (len(impl['created']) != 1 or impl['shut'] or impl['killed'] or impl['quits']):
+                fails.append('a differ error was treated as a pool breakage: pools %s, shut %s, killed %s, exits scheduled %s' % (impl['created'], impl['shut'], impl['killed'], impl['quit_codes']))
+            if fails:
+                n_bad += 1
+                if n_bad <= 2:
+                    rep.violation('differ-error-%d' % n_bad, {'what': fails, 'schedule': [list(e) for e in sched], 'restart_option': restart})
+    rep.obligation('observer: a failing diff job in a healthy pool is no breakage: one run, its error, no reset, no exit (%d schedules)' % n, n_bad == 0)
+
+
 def run(rep, ctx):
     import web_monitoring_diff.server.server as df
     import inspect
@@ -45,6 +76,7 @@ def run(rep, ctx):
     rng = rng_for(ctx['seed'], 'c07')
     tries = inspect.signature(df.DiffHandler.diff).parameters['tries'].default
     rep.obligation('tries default of DiffHandler.diff is the generated Tables.diff_tries (= 2)', tries == TRIES, tries)
+    differ_error_pass(rep)
     rep.rule = ('the reachable state graph of the protocol model for N concurrent requests (events: start, job result delivered, '
                 'BrokenProcessPool delivered, pool breaks) is enumerated breadth-first through the extracted model; for EVERY edge a '
                 'shortest schedule reaching it is replayed on the real DiffHandler.diff/get_diff_executor coroutines with a scripted fake '
